@@ -260,6 +260,21 @@ func propVerifyRaw(t *rapid.T) {
 	if lib.ScInt(lr).Cmp(r) != 0 || lib.ScInt(ls).Cmp(s) != 0 {
 		t.Fatal("VerifyRaw modified r or s")
 	}
+	// follow-up calls on the same key object: a related query (one digest bit flipped, or the
+	// negated key), then the original again -- a verdict or a table memoised across calls must not leak
+	if len(c.digest) >= 32 && rapid.Bool().Draw(t, "follow-up") {
+		alt := append([]byte(nil), c.digest...)
+		alt[rapid.IntRange(0, 31).Draw(t, "fbyte")] ^= 1 << uint(rapid.IntRange(0, 7).Draw(t, "fbit"))
+		if g2, w2 := pk.VerifyRaw(alt, lr, ls), ref.ECDSAVerify(c.q, alt, r, s); g2 != w2 {
+			t.Fatalf("VerifyRaw(Q=%v, digest=%x, r=%x, s=%x) = %v right after verifying digest %x, SEC 1 says %v", c.q, alt, r, s, g2, c.digest, w2)
+		}
+		if g3 := lib.PubKey(c.q.Neg()).VerifyRaw(c.digest, lr, ls); g3 != ref.ECDSAVerify(c.q.Neg(), c.digest, r, s) {
+			t.Fatalf("VerifyRaw under -Q right after verifying under Q: %v", g3)
+		}
+		if g4 := pk.VerifyRaw(c.digest, lr, ls); g4 != want {
+			t.Fatalf("VerifyRaw(Q=%v, digest=%x, r=%x, s=%x) = %v on the second identical call, %v on the first", c.q, c.digest, r, s, g4, got)
+		}
+	}
 	if c.d != nil {
 		checkPrivatePath(t, c.d, c.digest, r, s, want)
 	}
